@@ -10,9 +10,9 @@ import (
 	z "github.com/Oudwins/zog"
 	"github.com/Oudwins/zog/conf"
 	"github.com/Oudwins/zog/i18n"
-	"github.com/Oudwins/zog/internals"
 	"github.com/Oudwins/zog/i18n/en"
 	"github.com/Oudwins/zog/i18n/es"
+	"github.com/Oudwins/zog/internals"
 	"github.com/Oudwins/zog/zconst"
 )
 
